@@ -48,8 +48,8 @@ def run(tier, seed):
     res = Result(prop, tier, seed)
     work = Work(prop)
     try:
-        ok, blog = coq_build(["props/C04.vo", "corr/M4corr.vo", "corr/C04cmd.vo"])
-        proofs_ok, pa = proof_obligations(work, res, "C04.v", ok, blog)
+        ok, blog = coq_build(["props/C04.vo", "props/C04cmd.vo", "corr/M4corr.vo", "corr/C04cmd.vo"])
+        proofs_ok, pa = proof_obligations_multi(work, res, ["C04.v", "C04cmd.v"], ok, blog)
         rnd = random.Random(seed)
         n_tables = 25 if tier == "quick" else 400
         n_req = 40 if tier == "quick" else 120
